@@ -15,6 +15,19 @@ from .repo import AnalysisError
 from .vec import El, Sc, Vec, m_conc
 
 
+def missing_attr(lib, cls, name, node):
+    """an attribute the stub does not implement: an AttributeError only if the real class lacks it too - otherwise the stub is what is
+    missing something, and that is an analysis error, never a finding about the analysed code"""
+    try:
+        real = getattr(__import__(lib), cls)
+        has = hasattr(real, name)
+    except Exception:
+        has = True
+    if has:
+        raise AnalysisError(f'{cls}.{name} is not modelled by the {cls} stub', node)
+    raise AbsRaise(ExcVal('AttributeError', (f"'{cls}' object has no attribute '{name}'",)), node)
+
+
 class DF:
     abs_kind = 'DataFrame'
 
@@ -39,7 +52,7 @@ class DF:
         return out
 
     def abs_getitem(self, interp, key, node):
-        if isinstance(key, str):
+        if isinstance(key, (str, int)) and not isinstance(key, bool):
             if key not in self.columns:
                 raise AbsRaise(ExcVal('KeyError', (key,)), node)
             return self.series(key)
@@ -50,8 +63,8 @@ class DF:
         raise AnalysisError('DataFrame[...] form not modelled', node)
 
     def abs_setitem(self, interp, key, v, node):
-        if not isinstance(key, str):
-            raise AnalysisError('DataFrame column assignment with a non-string key', node)
+        if not isinstance(key, (str, int)) or isinstance(key, bool):
+            raise AnalysisError('DataFrame column assignment with a key that is neither a string nor an integer', node)
         from .models_lib import as_series_values
         col = as_series_values(interp, v, self.nrows() if self.columns else None, node)
         if not self.columns:
@@ -125,7 +138,9 @@ class DF:
             return PyCallable(lambda it, a, k, n: (_ for _ in ()).throw(AnalysisError(f'DataFrame.{name} (row reordering / reindexing) not modelled', n)), name)
         if name in self.columns and name.isidentifier():
             return self.series(name)
-        raise AbsRaise(ExcVal('AttributeError', (f"'DataFrame' object has no attribute '{name}'",)), node)
+        if name == 'copy':
+            return PyCallable(lambda it, a, k, n: DF(collections.OrderedDict((c, v.copy()) for c, v in self.columns.items()), self.index.copy()), 'copy')
+        missing_attr('pandas', 'DataFrame', name, node)
 
     def abs_truth(self):
         raise AnalysisError('truth value of a DataFrame is ambiguous')
@@ -157,7 +172,7 @@ class Loc:
             raise AnalysisError('.loc row selector not modelled', node)
         if isinstance(cols, slice) and cols == slice(None):
             return df
-        if isinstance(cols, str):
+        if isinstance(cols, (str, int)) and not isinstance(cols, bool):
             if cols not in df.columns:
                 raise AbsRaise(ExcVal('KeyError', (cols,)), node)
             return df.series(cols)
@@ -263,7 +278,7 @@ def var_getattr(var, interp, name, node):
         return PyCallable(lambda it, a, k, n: var_sel(var, it, k, n), 'sel')
     if name == 'isel':
         raise AnalysisError('DataArray.isel not modelled', node)
-    raise AbsRaise(ExcVal('AttributeError', (f"'DataArray' object has no attribute '{name}'",)), node)
+    missing_attr('xarray', 'DataArray', name, node)
 
 
 class Coords:
@@ -313,7 +328,7 @@ def var_sel(var, interp, indexers, node):
 
 
 def ds_getattr(ds, interp, name, node):
-    raise AbsRaise(ExcVal('AttributeError', (f"'Dataset' object has no attribute '{name}'",)), node)
+    missing_attr('xarray', 'Dataset', name, node)
 
 
 class DimIndexers:
